@@ -318,6 +318,7 @@ class FlagAnalysis:
             s, plain = st
             blk = f.bmap[b]
             cond_node = None
+            pending_rets = []      # destructors of scope guards run after the return value is computed: take the state at the end of the block
             for i in blk['e']:
                 n = f.nodes[i]
                 if not n: continue
@@ -345,7 +346,9 @@ class FlagAnalysis:
                             condcalls[i] = sm[1]
                 elif k == 'ret':
                     rv = f.eval_const(n['e']) if n['e'] else None
-                    rets[i] = (join(rets.get(i, (None,))[0], s), rv)
+                    pending_rets.append((i, rv))
+            for (ri, rv) in pending_rets:
+                rets[ri] = (join(rets.get(ri, (None,))[0], s), rv)
             succ = f.succ(b)
             tc = blk.get('tc')
             if f.exit in succ and not any(f.nodes[i] and f.nodes[i]['k'] == 'ret' for i in blk['e']) and not f.aborts([b]):
